@@ -304,13 +304,13 @@ theorem estep_inv (lt : Node → Node → Prop) (ho : StrictOrder lt) (st : Env 
   | clearAll c => exact step_inv env lt ho hr s (.clearAll c) g hi
   | setRef r v =>
     obtain ⟨R, D, hc, _, _⟩ := clr_setRef env s g.edgeOK r
-    have hed : RefEdit env (withRef env r (some v)) r := ⟨rfl, rfl, rfl, fun r' h => by simp [withRef, h]⟩
+    have hed : RefEdit env (withRef env r (some v)) r := ⟨rfl, rfl, rfl, fun r' h => by simp [withRef, h], rfl⟩
     exact ⟨refEdit_gi g hi.1 hed hc, clrIdle hc⟩
   | delRef r =>
     simp only [estep]
     split
     · obtain ⟨R, hc, _⟩ := clr_delRef env s g.edgeOK r
-      have hed : RefEdit env (withRef env r none) r := ⟨rfl, rfl, rfl, fun r' h => by simp [withRef, h]⟩
+      have hed : RefEdit env (withRef env r none) r := ⟨rfl, rfl, rfl, fun r' h => by simp [withRef, h], rfl⟩
       exact ⟨refEdit_gi g hi.1 hed hc, clrIdle hc⟩
     · exact ⟨g, hi⟩
   | setFormula c f =>
